@@ -43,7 +43,7 @@ def corpus():
         return G.Kernel("k", ["const int N", "const int M", "const int *in", "int *out", "int *acc"], [o])
 
     # F60: constant zero step
-    K = base(); lp = K.body[0].kids[0]; lp.raw, lp.raw_ir = "int i = 0; i < 8; i += 0", "k,0,k,lt,8,k,add,0"
+    K = base(); lp = K.body[0].kids[0]; lp.raw, lp.raw_ir = "int i = 0; i < 8; i += 0", "k,0,k,lt,8,k,add,0,l"
     out.append([G.t_op(K, REJECT)])
     # F61: continue inside a switch directly in an @inner loop
     K = base(); K.body[0].kids[0].kids.insert(0, G.Seq("switch", "switch (i) {", [G.Leaf("label", "case 0:"), G.Leaf("continue"),
@@ -56,6 +56,9 @@ def corpus():
     K = base(); lp = K.body[0].kids[0]
     for q in range(3):
         lp.kids = [G.simple_inner(r, "q%d" % q, 2, kids=lp.kids)]; lp = lp.kids[0]
+    out.append([G.t_op(K, REJECT)])
+    # F70: the update moves away from the bound
+    K = base(); lp = K.body[0].kids[0]; lp.raw, lp.raw_ir = "int i = 0; i > N; ++i", "k,0,k,gt,?,k,inc,-,l"
     out.append([G.t_op(K, REJECT)])
     # accepted: break in a switch / sequential loop inside @inner; decreasing loops
     K = base(True); K.body[0].kids[1].kids.append(G.Seq("switch", "switch (j) {", [G.Leaf("label", "case 0:"), G.Leaf("break"),
